@@ -29,6 +29,9 @@ pub struct Task {
     pub pre_yields: usize,
     pub mid_yields: usize,
     pub ks: usize,
+    /// the task is cancelled (its future dropped, like an RPC handler whose connection went away) at its n-th
+    /// suspension point: it is polled n times and dropped instead of being polled again
+    pub cancel_after: Option<usize>,
 }
 
 #[derive(Debug, Clone)]
@@ -69,6 +72,7 @@ impl Prop for C18 {
                 pre_yields: src.below(4),
                 mid_yields: src.below(4),
                 ks: src.below(n_ks),
+                cancel_after: if !self.multi_thread && src.chance(1, 4) { Some(1 + src.below(24)) } else { None },
             })
             .collect();
         Case { tasks, multi_thread: self.multi_thread }
@@ -93,16 +97,45 @@ impl Prop for C18 {
     fn describe(&self, case: &Case) -> Value {
         json!({
             "runtime": if case.multi_thread { "4 workers (OS schedule, 10 repetitions)" } else { "current-thread (schedule = generated yields)" },
-            "tasks": case.tasks.iter().map(|t| format!("{:?} ks{} yields {}+{}", t.kind, t.ks, t.pre_yields, t.mid_yields)).collect::<Vec<_>>(),
+            "tasks": case.tasks.iter().map(|t| format!("{:?} ks{} yields {}+{}{}", t.kind, t.ks, t.pre_yields, t.mid_yields, t.cancel_after.map(|n| format!(" dropped at suspension point {n}")).unwrap_or_default())).collect::<Vec<_>>(),
         })
     }
 
     fn rule(&self) -> &'static str {
         "2-6 concurrent tasks on 1-2 *fresh* keyspace names of a real KeyspaceGroup; each task yields 0-3 times, calls \
          get_or_create_keyspace, yields 0-3 times, then sends one mutation on its own key (client put/delete, \
-         replication batch, read-repair batch) or just polls the state; oracle: the mailbox a LATER lookup returns \
-         serialises a set that contains every acknowledged mutation, and equals storage; non-trivial = at least two \
+         replication batch, read-repair batch) or just polls the state; on the owned schedule a quarter of the tasks is cancelled (future dropped) at a \
+         generated suspension point (polled n times, then dropped); oracle: the mailbox a LATER lookup returns \
+         serialises a set that contains every acknowledged mutation, and equals storage, and a keyspace holding an \
+         acknowledged mutation is listed in the keyspace info peers poll; non-trivial = at least two \
          tasks use the same keyspace with pre-lookup yield counts differing by at most one"
+    }
+}
+
+/// Polls the wrapped future at most `polls_left` times; when it would be polled once more it is dropped instead:
+/// the task is cancelled while suspended at its `polls_left`-th suspension point.
+struct DropAfter<F: std::future::Future> {
+    inner: Option<std::pin::Pin<Box<F>>>,
+    polls_left: Option<usize>,
+}
+
+impl<F: std::future::Future> std::future::Future for DropAfter<F> {
+    type Output = Option<F::Output>;
+
+    fn poll(self: std::pin::Pin<&mut Self>, cx: &mut std::task::Context<'_>) -> std::task::Poll<Self::Output> {
+        // `Pin<Box<F>>` is Unpin, so the wrapper is too
+        let this = self.get_mut();
+        if let Some(left) = this.polls_left.as_mut() {
+            if *left == 0 {
+                this.inner = None;
+                return std::task::Poll::Ready(None);
+            }
+            *left -= 1;
+        }
+        match this.inner.as_mut() {
+            Some(f) => f.as_mut().poll(cx).map(Some),
+            None => std::task::Poll::Ready(None),
+        }
     }
 }
 
@@ -113,7 +146,8 @@ async fn run(case: &Case) -> Outcome {
     for (i, t) in case.tasks.iter().enumerate() {
         let g = group.clone();
         let t = t.clone();
-        handles.push(tokio::spawn(async move {
+        let cancel_after = t.cancel_after;
+        let body = async move {
             for _ in 0..t.pre_yields {
                 tokio::task::yield_now().await;
             }
@@ -135,15 +169,24 @@ async fn run(case: &Case) -> Outcome {
                 },
             };
             (t, key, stamp, acked)
-        }));
+        };
+        handles.push(tokio::spawn(DropAfter { inner: Some(Box::pin(body)), polls_left: cancel_after }));
     }
     let mut acked = vec![];
+    let mut cancelled = 0;
     for h in handles {
-        let (t, key, stamp, ok) = h.await.expect("task");
-        if ok {
-            acked.push((t, key, stamp));
+        match h.await.expect("task") {
+            Some((t, key, stamp, ok)) => {
+                if ok {
+                    acked.push((t, key, stamp));
+                }
+            },
+            None => cancelled += 1,
         }
     }
+    // what peers poll to decide which keyspaces to synchronise
+    let advertised = group.get_keyspace_info().await.keyspace_timestamps;
+
     for ks in 0..2 {
         let name = format!("fresh{ks}");
         if group.verif_get(&name).is_none() {
@@ -166,6 +209,14 @@ async fn run(case: &Case) -> Outcome {
         }
         let st = e2::store_view(&store, &name);
         ensure!(v == st, "state-differs-from-storage", "keyspace {name}: state {:?} but storage {:?}", v, st);
+        if acked.iter().any(|(t, _, _)| t.ks == ks) {
+            ensure!(
+                advertised.contains_key(&name),
+                "keyspace-with-accepted-operations-not-advertised",
+                "keyspace {name} holds acknowledged mutations but the keyspace info peers poll lists only {:?}: no peer will ever synchronise against it",
+                advertised.keys().collect::<Vec<_>>()
+            );
+        }
     }
     let mut close = false;
     for (i, a) in case.tasks.iter().enumerate() {
@@ -184,6 +235,9 @@ async fn run(case: &Case) -> Outcome {
     }
     if close {
         labels.push("overlapping_first_use");
+    }
+    if cancelled > 0 {
+        labels.push("a_first_user_was_cancelled");
     }
     Ok(Pass { nontrivial: close, labels })
 }
